@@ -57,6 +57,12 @@ func init() {
 	})
 }
 
+func init() {
+	controlRegistry["C05"] = []Control{{Rule: "R05.4", Run: ruleR05_4, MustFire: []string{"dropLookAhead"}}}
+	controlRegistry["C11"] = []Control{{Rule: "R11.1", Run: ruleR11_1, MustFire: []string{"drain"}}}
+	controlRegistry["C04"] = []Control{{Rule: "R04.5", Run: ruleR04_5, MustFire: []string{"drain"}}}
+}
+
 // ---------- linear normal form (E5) ----------
 
 type linForm struct {
